@@ -179,6 +179,14 @@ theorem admits_of_ok : ∀ (τ : Ty) (j : PV) (p : Path) (v : PV), parseValue τ
     cases j <;> simp [parseValue, mismatch] at h; subst h; exact .str _
   | .bool, j, p, v, h => by
     cases j <;> simp [parseValue, mismatch] at h; subst h; exact .bool _
+  | .listAny, j, p, v, h => by
+    cases j <;> simp [parseValue, mismatch] at h; subst h; exact .listAny _
+  | .tupleAny, j, p, v, h => by
+    cases j <;> simp [parseValue, mismatch] at h <;> subst h
+    · exact .tupleAnyL _
+    · exact .tupleAnyT _
+  | .dictAny, j, p, v, h => by
+    cases j <;> simp [parseValue, mismatch] at h; subst h; exact .dictAny _
   | .list t, j, p, v, h => by
     cases j <;> simp [parseValue, mismatch, okMap_ok] at h
     obtain ⟨ys, h1, h2⟩ := h; subst h2
@@ -298,6 +306,9 @@ theorem ok_of_admits : ∀ (τ : Ty) (j v : PV), Admits τ j v → ∀ p, parseV
     | _ => simp [parseValue]
   | .str, j, v, h, p => by cases h; simp [parseValue]
   | .bool, j, v, h, p => by cases h; simp [parseValue]
+  | .listAny, j, v, h, p => by cases h; simp [parseValue]
+  | .tupleAny, j, v, h, p => by cases h <;> simp [parseValue]
+  | .dictAny, j, v, h, p => by cases h; simp [parseValue]
   | .list t, j, v, h, p => by
     cases h with
     | list hl =>
